@@ -62,7 +62,29 @@ def add_to(rep, anchors=()):
         rep.bad('crossval', 'crossval:engine', '', f'cannot cross-validate the call graphs: {ex!r}', undecided=True)
         return
     rep.info['crossval'] = {'edges_engine_a': len(ea), 'edges_engine_b': len(eb), 'only_in_syntactic_graph': only_a[:20], 'only_in_mir_graph': only_b[:20]}
-    bad = [e for e in only_a + only_b if not anchors or any(a in e[0] or a in e[1] for a in anchors)]
+    # only edges of the generating part of the crate matter to the Engine-A rules: functions reachable (in either graph) from the functions that
+    # take the WriteOptions.  The error-rendering methods (`emit_*`) and other API outside generation are judged on MIR alone (C17)
+    try:
+        ga, gb, ogp, mir = graphs()
+        roots = {n for n, b in mir.bodies.items() if b.kind != 'Closure' and any('WriteOptions' in ty for ty in b.locals[1:b.arg_count + 1])}
+        reach = set()
+        for g_ in (ga, gb):
+            st_ = [norm(r_) for r_ in roots]
+            gn = {}
+            for a_, bs_ in g_.items():
+                gn.setdefault(norm(a_), set()).update(norm(b_) for b_ in bs_)
+            seen_ = set()
+            while st_:
+                x_ = st_.pop()
+                if x_ in seen_:
+                    continue
+                seen_.add(x_)
+                st_.extend(gn.get(x_, ()))
+            reach |= seen_
+        relevant = lambda e: e[0] in reach or e[1] in reach
+    except Exception:
+        relevant = lambda e: True
+    bad = [e for e in only_a + only_b if relevant(e) and (not anchors or any(a in e[0] or a in e[1] for a in anchors))]
     rep.check(not bad, 'crossval.call-graph', 'call-graph-agreement', '',
               f'the syntactic call graph (Engine A) and the resolved MIR call graph (Engine B) disagree on {bad[:6]}: some call is invisible to one engine, so rules over that engine may be incomplete',
               ok_detail=f'{len(ea & eb)} crate-internal call edges agree between the syntactic and the resolved MIR call graph')
